@@ -45,6 +45,7 @@ type Doc struct {
 	PageNo      string   `json:"pageno"`                 // none | fixed (same place on every page) | alternate (outer margin)
 	PageNoStyle string   `json:"pageno_style,omitempty"` // one of PageNoStyles
 	PageNoAt    string   `json:"pageno_at,omitempty"`    // top | bottom
+	PageNoCase  string   `json:"pageno_case,omitempty"`  // "" as in PageNoStyles | upper ("PAGE 3 OF 9") | title ("Page 3 Of 9", "Pg. 3")
 	Feat        []string `json:"feat,omitempty"`
 }
 
@@ -157,6 +158,7 @@ func GenDoc(t *rapid.T, o DocOpts) Doc {
 	if d.PageNo != "none" {
 		d.PageNoStyle = rapid.SampledFrom(PageNoStyles).Draw(t, "pageNoStyle")
 		d.PageNoAt = rapid.SampledFrom([]string{"bottom", "bottom", "top"}).Draw(t, "pageNoAt")
+		d.PageNoCase = rapid.SampledFrom([]string{"", "", "", "upper", "title"}).Draw(t, "pageNoCase")
 	}
 	pnAlign := rapid.SampledFrom([]string{"center", "right", "left"}).Draw(t, "pageNoAlign")
 	allDims := [][2]float64{{612, 792}, {595, 842}, {792, 612}, {842, 595}}
@@ -335,7 +337,14 @@ func GenDoc(t *rapid.T, o DocOpts) Doc {
 			if d.PageNoAt == "top" {
 				y = topRow(1)
 			}
-			madd([]string{FormatPageNo(d.PageNoStyle, pnStart+i, pnStart+n-1)}, "frag", al, y+jit, RolePageNo, 0)
+			label := FormatPageNo(d.PageNoStyle, pnStart+i, pnStart+n-1)
+			switch d.PageNoCase {
+			case "upper":
+				label = strings.ToUpper(label)
+			case "title":
+				label = strings.Title(label)
+			}
+			madd([]string{label}, "frag", al, y+jit, RolePageNo, 0)
 			if margNum {
 				// a constant number (a year) in the same band, on the same row, at another place
 				al2 := "left"
